@@ -75,6 +75,14 @@ class MDec:
         if isinstance(o, int): return MDec(o, 0)
         return None
     def is_finite(self): return self.inf == 0
+    def is_infinite(self): return self.inf != 0
+    def is_nan(self): return False
+    def is_qnan(self): return False
+    def is_snan(self): return False
+    def is_zero(self): return self.inf == 0 and self.c == 0
+    def is_signed(self): return self.inf < 0 or (self.inf == 0 and self.c < 0)  # (the model has no negative zero)
+    def copy_abs(self): return self.__abs__()
+    def copy_negate(self): return self.__neg__()
     def adjusted(self):
         if self.inf: return 0
         return _ndigits(self.c) + self.e - 1
